@@ -35,6 +35,9 @@ def gen(rng, n, tier):
             if form == "object": incl = {"numpy": rng.random() < 0.8, "fixed": False, "static": rng.random() < 0.5}[kind]
             else: incl = True          # arrays become StaticBinning(includes_right_edge=True)
             axes.append([b, "T" if incl else "F"]); kinds.append(kind); forms.append(form)
+        if rng.random() < 0.15 and kinds[0] in ("static", "numpy"):      # twin axes: the same bins with the opposite right-edge declaration
+            k = rng.randrange(1, d)
+            axes[k] = [[list(x) for x in axes[0][0]], "F" if axes[0][1] == "T" else "T"]; kinds[k] = kinds[0]; forms[0] = forms[k] = "object"
         m = rng.choice([0, 1, 2, 3, 5, 8, 12, 20, 30])
         rows = []
         for _ in range(m):
@@ -54,10 +57,17 @@ def gen(rng, n, tier):
                     row.append(Fr(float(np.nextafter(float(e), rng.choice([-math.inf, math.inf])))))
                 else: row.append(rng.choice(pool))
             rows.append(row)
-        wkind = rng.choice(["none", "none", "int", "float"])
+        wkind = rng.choice(["none", "none", "int", "float", "float"])
         weights = "none"
         if wkind == "int": weights = [rng.randint(0, 5) for _ in range(m)]
         if wkind == "float": weights = [Fr(rng.randint(0, 40), 8) for _ in range(m)]
+        if wkind == "float" and rng.random() < 0.4:      # signed weights: rows that fall into no cell may weigh less than nothing
+            def outside(row):
+                for x, (b, incl) in zip(row, axes):
+                    if x == "nan": return False
+                    if not any((lo <= x < hi) for lo, hi in b) and not (incl == "T" and x == b[-1][1]): return True
+                return False
+            weights = [(-w if outside(r) else w) for w, r in zip(weights, rows)]
         wlen_ok = "T"
         if weights != "none" and m > 1 and rng.random() < 0.04: weights = weights[:-1]; wlen_ok = "F"
         dropna = "T" if rng.random() < 0.9 else "F"
